@@ -7,6 +7,7 @@ from rules import common
 from rules.panic_rules import in_scope, LOOKX
 
 LOOP_TABLE = {
+    "functions_definitions::get_fn_help": "help tooling (create-docs feature): walks the static tree of function groups",
     "functions_definitions::get_fn_help_name": "help tooling (--additional-help): walks the static tree of function "
                                                "groups through a boxed iterator; not input or expression driven",
 }
